@@ -24,7 +24,7 @@ BLOCKS = {
     'codes1': ('codes', '0x40c0004\tBSC_exit\n'), 'codes2': ('codes', '0x40c0008\tBSC_fork\n'),
     'kext1': ('kexts', KEXT1), 'kext2': ('kexts', KEXT2), 'dyld1': ('dyld', DYLD1), 'dyld2': ('dyld', DYLD2),
     'procs': ('processes', PROCS), 'images': ('images', IMAGES), 'strings': ('strings', V.sample_strings()),
-    'logs': ('logs', V.sample_logs()), 'logs2': ('logs', {'Events': [V.mandatory(4, 0x503, p=2, pid=70)]}),
+    'logs': ('logs', V.sample_logs()), 'logs2': ('logs', {'Events': [V.mandatory(4, 0x503, p=0, pid=70)]}),
     'logs0': ('logs', {'Events': []}),
 }
 
